@@ -663,3 +663,4 @@ _G_TWO = [_g("glue_timeout_two_steps_st", timeout=2400, mem=16, bounds="1 live r
 PROPS["C07"] = PROPS["C07"] + _G_TWO
 PROPS["C17"] = PROPS["C17"] + [_G_TWO[1]]
 PROPS["C08"] = PROPS["C08"] + [_G_TWO[1]]
+DESCR["C14"]["level"] += " Third obligation (both MIR profiles): an iteration ends on the failing side of a 16-bit range check (u16::try_from / checked_add) only when accumulator + 4 + value size + padding really exceeds 65535, i.e. every message that fits is accepted; a reachability witness for that failing side is required."
